@@ -43,7 +43,8 @@ REQUIRED_THEOREMS = [
     "rhsValuePdeAt_operator", "rhsValuePdeAt_operator_free", "rhsValuePdeAt_laplace_plus_time_term",
     "rhsValueF_compositional", "rhsValuePdeAt_compositional", "evalWithCalls_no_calls", "values_operator_sound",
     "values_operator_sound_ks", "rhsValueF_constOp", "sumSquares_nonneg", "sumSquares_eq_zero_iff",
-    "sumSquares_homogeneous", "sampled_head", "sampled_second",
+    "sumSquares_homogeneous", "sampled_head", "sampled_second", "rhsValueF_env_congr", "rhsValueF_unused_field",
+    "grouped_text_vs_split_class_gap_at", "diffusionRateAt_time_dependence", "eval_env_congr",
 ]
 EXTRA_PROP_FILES = ["C10b"]
 RULE = ("cases = (equation class or generic right-hand-side program, parameters incl. the expr_prod branch values "
